@@ -127,9 +127,24 @@ Fixpoint windowedb (U : list msg) (ops : list op) (tr : list (list out)) : bool 
 Definition chk_C10_obs (maxsz tmo : Z) (hs : list hop) (tr : list (list out)) : bool :=
   let v := walk maxsz tmo w0 hs tr in
   chk_bound maxsz [] (map early hs) tr && v_bound v && v_cause v && (if windowedb [] (map early hs) tr then v_oldest v else true).
+(* "Close delivers every buffered event ... with loss accounting": the lost count a Close reports is judged as C03 judges every
+   call's (ReasmC03.chk_call: the sequence numbers skipped between consecutive in-order deliveries).  The delivery cursor
+   is carried through all calls; a count that is off in a call that is not a Close is C03's business, not C19's. *)
+Fixpoint chk_close_lost (last : option Z) (hs : list hop) (tr : list (list out)) : bool :=
+  match hs, tr with
+  | h :: hs', outs :: tr' =>
+      match chk_call last outs with
+      | Some last' => chk_close_lost last' hs' tr'
+      | None => match h with
+                | HClose => false
+                | _ => match replay last outs 0 with Some (_, last', _) => chk_close_lost last' hs' tr' | None => true end
+                end
+      end
+  | _, _ => true
+  end.
 Definition chk_C19_obs (maxsz tmo : Z) (hs : list hop) (tr : list (list out)) : bool :=
   let v := walk maxsz tmo w0 hs tr in
-  v_cause v && v_close v && (if windowedb [] (map early hs) tr then v_stale v else true).
+  v_cause v && v_close v && (if windowedb [] (map early hs) tr then v_stale v else true) && chk_close_lost None hs tr.
 Definition chk_C02_obs (hs : list hop) (tr : list (list out)) : bool :=
   if windowedb [] (map early hs) tr then chk_C02 [] (map early hs) tr else true.
 
